@@ -62,6 +62,11 @@ def components(rnd, n):
             lambda: wishbone.Decoder(addr_width=aw3, data_width=dw2, granularity=g2, features=fs), "bus", "target")
         add(f"wishbone.Arbiter(aw={aw3},dw={dw2},gran={g2},features={sorted(fs)})",
             lambda: wishbone.Arbiter(addr_width=aw3, data_width=dw2, granularity=g2, features=fs), "bus", "initiator")
+    # the granularity left out (it defaults to the data width), on every component that takes one
+    for dw_ in (16, 32):
+        add(f"wishbone.Arbiter(aw=4,dw={dw_},granularity omitted)", lambda dw_=dw_: wishbone.Arbiter(addr_width=4, data_width=dw_), "bus", "initiator")
+        add(f"wishbone.Decoder(aw=4,dw={dw_},granularity omitted)", lambda dw_=dw_: wishbone.Decoder(addr_width=4, data_width=dw_), "bus", "target")
+        add(f"WishboneSRAM(size=8,dw={dw_},granularity omitted)", lambda dw_=dw_: WishboneSRAM(size=8, data_width=dw_), "wb_bus", "target")
     # fixed corners: the whole CSR space is exactly one Wishbone word (the Wishbone port has no address bits)
     for cdw, wdw in ((8, 16), (8, 32), (16, 64), (8, 64)):
         caw = (wdw // cdw).bit_length() - 1
@@ -107,13 +112,40 @@ def connect_cases(seed, n):
     return res
 
 
+def default_granularity_cases():
+    """components built with the granularity left out must present the port the standard signature with the
+    same parameters (granularity left out too) describes, and connect to an interface created from it"""
+    res = []
+    for dw_ in (16, 32, 64):
+        for descr, mk, port, role in (
+                (f"wishbone.Arbiter(dw={dw_})", lambda: wishbone.Arbiter(addr_width=4, data_width=dw_), "bus", "initiator"),
+                (f"wishbone.Decoder(dw={dw_})", lambda: wishbone.Decoder(addr_width=4, data_width=dw_), "bus", "target"),
+                (f"wishbone.Interface(dw={dw_})", lambda: wishbone.Interface(addr_width=4, data_width=dw_), None, "initiator")):
+            try:
+                c = mk()
+                p_ = c if port is None else getattr(c, port)
+                std = wishbone.Signature(addr_width=4, data_width=dw_)
+                got = {n: Shape.cast(m_.shape).width for n, m_ in (p_.signature.flip() if isinstance(p_.signature, wiring.FlippedSignature) else p_.signature).members.items()}
+                want = {n: Shape.cast(m_.shape).width for n, m_ in std.members.items()}
+                if got != want:
+                    res.append((descr, f"member widths {got}, the standard signature with the same (defaulted) parameters has {want}"))
+                    continue
+                if port is not None:
+                    m = Module()
+                    connect(m, std.create() if role == "target" else flipped(std.create()), p_)
+            except Exception as e:
+                res.append((descr, f"{type(e).__name__}: {str(e)[:160]}"))
+    return res
+
+
 def signature_grid():
     """(class name, params dict, constructor) over the grid"""
     rows = []
     for aw, dw in itertools.product([1, 4, 16], [1, 8, 32]):
         rows.append(("csr.Signature", {"addr_width": aw, "data_width": dw}, lambda aw=aw, dw=dw: csr.Signature(addr_width=aw, data_width=dw)))
-    for w, acc in itertools.product([0, 1, 8, 12], ["r", "w", "rw"]):
-        rows.append(("csr.Element.Signature", {"width": w, "access": acc}, lambda w=w, acc=acc: csr.Element.Signature(w, acc)))
+    for w, acc in itertools.product([0, 1, 8, 12, 300, 512], ["r", "w", "rw"]):
+        # (the width is a fresh int object on every construction: equality is by value)
+        rows.append(("csr.Element.Signature", {"width": w, "access": acc}, lambda w=w, acc=acc: csr.Element.Signature(int(str(w)), str(acc))))
     # the same cast shape in several spellings (an enum and its width, an int and unsigned(n), a range): equal signatures
     for shp, acc in itertools.product([unsigned(0), 0, unsigned(5), range(32), signed(5), range(-16, 16), gpio.PinMode, unsigned(2), range(4), 8, unsigned(8), OneHot, unsigned(3)],
                                       ["r", "w", "rw", "nc"]):
